@@ -23,7 +23,7 @@ Of the {len(first) + len(later)} seeds, {len(first)} were caught by their proper
 {len(later)} were not ({', '.join(later)}) and each led to a new, corrected or shared obligation, after which it is caught - the
 "caught by" column says what was missing and what was added (several of these were already caught by a *neighbouring*
 property's check, e.g. the per-position valuation C04.a, and were then shared so that the property's own check sees them).
-Six of these were not silent passes but exit 2 - undecided, which is not a detection either: C19-1 (incomplete replay request), C14-2 (absent guard reported as a tool error), C12-4 (abstracted bit operation), C13-4 (unmodelled float literal), C18-3 (unmodelled iterator adaptor), C20-3 (unparsed constant spelling); each exposed a gap of the encoder that was closed.
+Seven of these were not silent passes but exit 2 - undecided, which is not a detection either: C08-6 (unmodelled byte-vector comparison, see 'Benign refactorings'), C19-1 (incomplete replay request), C14-2 (absent guard reported as a tool error), C12-4 (abstracted bit operation), C13-4 (unmodelled float literal), C18-3 (unmodelled iterator adaptor), C20-3 (unparsed constant spelling); each exposed a gap of the encoder that was closed.
 No seed remains uncaught. The sub-agents that wrote the seeds saw only the property text and a scratch worktree, never /verif.
 """
 s = re.sub(r'\nOf the \d+ seeds,.*?never /verif\.\n', lambda _: note, s, flags=re.S)
